@@ -87,7 +87,8 @@ def run_driver(cwd, out_dir, cargo_args, target_dir, crates, fingerprint_globs):
         "NXFACTS_CRATES": ",".join(crates),
         "CARGO_INCREMENTAL": "0",
     })
-    p = subprocess.run(["cargo", "+nightly", "check", "--offline", "--locked"] + cargo_args, cwd=cwd, env=env,
+    locked = ["--locked"] if os.path.exists(os.path.join(cwd, "Cargo.lock")) else []
+    p = subprocess.run(["cargo", "+nightly", "check", "--offline"] + locked + cargo_args, cwd=cwd, env=env,
                        capture_output=True, text=True)
     return p.returncode, p.stderr, run_id
 
